@@ -358,6 +358,128 @@ fn gen_storm() -> BoxedStrategy<Value> {
     }).boxed()
 }
 
+/// Deep rules evaluated by many threads at once: whatever bookkeeping the evaluator keeps per call (depth counters,
+/// scratch space) must be per call - every concurrent result equals the sequential one.
+fn check_deep_concurrent(case: &Value, obs: &mut Obs) -> Result<(), String> {
+    let levels = case["levels"].as_u64().unwrap_or(40) as usize;
+    let nthreads = case["threads"].as_u64().unwrap_or(8) as usize;
+    let per = case["per"].as_u64().unwrap_or(10) as usize;
+    let ops: Vec<String> = case["ops"].as_array().map(|a| a.iter().filter_map(|x| x.as_str().map(|s| s.to_string())).collect()).unwrap_or_default();
+    let mut rule = case["core"].clone();
+    for i in 0..levels {
+        let op = ops.get(i % ops.len().max(1)).map(|s| s.as_str()).unwrap_or("!");
+        rule = match op {
+            "if" => json!({"if": [true, rule, 0]}),
+            "and" => json!({"and": [1, rule]}),
+            "cat" => json!({"cat": [rule]}),
+            "map" => json!({"reduce": [{"map": [[1], rule]}, {"var": "current"}, 0]}),
+            "!!" => json!({"!!": [rule]}),
+            _ => json!({"!": [rule]}),
+        };
+    }
+    let data = case["data"].clone();
+    // must be deliverable as text (depth <= 128)
+    if serde_json::from_str::<Value>(&rule.to_string()).is_err() {
+        obs.class("deeper than text allows");
+        return Ok(());
+    }
+    if let (Res::Unspec("over_budget"), _) = model::eval(&rule, &data) {
+        obs.skip("over_budget");
+        return Ok(());
+    }
+    let alone = call(&rule, &data, obs, "deep rule alone")?;
+    against_model(&rule, &data, &alone, "deep rule alone")?;
+    let rules = vec![rule];
+    let datas = vec![data];
+    let threads: Vec<Vec<Pair>> = (0..nthreads).map(|_| vec![(0usize, 0usize); per]).collect();
+    let (results, _lines, _complete) = run_batch(&rules, &datas, &threads, obs)?;
+    for (t, outs) in results.iter().enumerate() {
+        for (k, out) in outs.iter().enumerate() {
+            if !same_out(out, &alone.out) {
+                return Err(format!("a {}-level rule gives {} alone but {} as call {} of thread {} while {} threads evaluate it concurrently: {}", levels, alone.out.short(), out.short(), k, t, nthreads, fmt_case(&rules[0], &datas[0])));
+            }
+        }
+    }
+    obs.nt(&format!("{} threads x depth {}-{}", nthreads, levels / 16 * 16, levels / 16 * 16 + 15));
+    Ok(())
+}
+
+fn gen_deep_concurrent() -> BoxedStrategy<Value> {
+    (30usize..=62, 4usize..=16, 5usize..=40, vec(select(vec!["!", "!!", "if", "and", "cat", "map"]), 1..=4), prop_oneof![Just(json!({"var": "a"})), Just(json!({"reduce": [{"var": "xs"}, {"+": [{"var": "current"}, {"var": "accumulator"}]}, 0]})), gen::scalars()], history_data())
+        .prop_map(|(levels, threads, per, ops, core, data)| json!({"levels": levels, "threads": threads, "per": per, "ops": ops, "core": core, "data": data}))
+        .boxed()
+}
+
+/// Rule and data are parsed from text right before every call and dropped right after it, for sequences of values of the
+/// same shape and byte length: state keyed on addresses / lengths of earlier (freed) inputs would leak between calls.
+fn check_fresh_values(case: &Value, obs: &mut Obs) -> Result<(), String> {
+    let rule_texts: Vec<String> = case["rules"].as_array().map(|a| a.iter().map(|r| r.to_string()).collect()).unwrap_or_default();
+    let data_texts: Vec<String> = case["datas"].as_array().map(|a| a.iter().map(|r| r.to_string()).collect()).unwrap_or_default();
+    let order: Vec<(usize, usize)> = case["order"].as_array().map(|a| a.iter().map(|p| (p[0].as_u64().unwrap_or(0) as usize, p[1].as_u64().unwrap_or(0) as usize)).collect()).unwrap_or_default();
+    if rule_texts.is_empty() || data_texts.is_empty() {
+        return Ok(());
+    }
+    let mut specified = 0;
+    for (k, (i, j)) in order.iter().enumerate() {
+        let (rt, dt) = (&rule_texts[i % rule_texts.len()], &data_texts[j % data_texts.len()]);
+        let got = {
+            // fresh allocations for this call only
+            let rule: Value = serde_json::from_str(rt).map_err(|e| format!("oracle_broken: {}", e))?;
+            let data: Value = serde_json::from_str(dt).map_err(|e| format!("oracle_broken: {}", e))?;
+            let got = call(&rule, &data, obs, "fresh values")?;
+            if against_model(&rule, &data, &got, &format!("call {} on freshly parsed values (after {} earlier calls whose inputs were freed)", k, k))? {
+                specified += 1;
+            }
+            got
+        };
+        drop(got);
+    }
+    if specified >= 3 {
+        obs.nt("sequence of calls on freshly allocated, freed, same-shaped inputs");
+    } else {
+        obs.class("short or unspecified sequence");
+    }
+    Ok(())
+}
+
+fn gen_fresh_values() -> BoxedStrategy<Value> {
+    // families of strings with identical byte length but different content, as whole data and as members
+    let family = select(vec![
+        vec!["héllo", "hèllo", "hëllo", "héllö"],
+        vec!["nähe", "über", "öde!", "añoz"],
+        vec!["αxxxxxxxxxx", "βxxxxxxxxxx", "γxxxxxxxxxx"],
+        vec!["日本語", "中文字", "한국어"],
+        vec!["a😀b", "c😁d", "e😂f"],
+        vec!["abc", "abd", "xyz"],
+    ]);
+    let rule = prop_oneof![
+        (-3i64..4).prop_map(|i| json!({"var": i})),
+        (-3i64..4, -3i64..4).prop_map(|(i, k)| json!({"cat": [{"var": i}, {"var": k}]})),
+        (-3i64..4).prop_map(|i| json!({"var": format!("s.{}", i)})),
+        (-3i64..4, 0i64..3).prop_map(|(i, l)| json!({"substr": [{"var": "s"}, i, l]})),
+        Just(json!({"some": [{"var": "s"}, {"in": [{"var": ""}, "éèüβ本😁"]}]})),
+        Just(json!({"cat": [{"var": "s"}, "|", {"var": ""}]})),
+        Just(json!({"+": [{"var": "n"}, 1]})),
+        Just(json!({"==": [{"var": "s"}, {"var": "t"}]})),
+        Just(json!({"in": [{"var": "s"}, [{"var": "t"}, "héllo", "über"]]})),
+        Just(json!({"<": [{"var": "s"}, {"var": "t"}]})),
+    ];
+    (family, vec(rule, 1..=4), vec((0usize..4, 0usize..8), 4..=24), any::<bool>())
+        .prop_map(|(fam, rules, order, wrap)| {
+            let mut datas: Vec<Value> = vec![];
+            for (k, s) in fam.iter().enumerate() {
+                if wrap {
+                    datas.push(json!({"s": s, "t": fam[(k + 1) % fam.len()], "n": s.len()}));
+                } else {
+                    datas.push(json!(s));
+                }
+            }
+            let order: Vec<Value> = order.into_iter().map(|(i, j)| json!([i, j])).collect();
+            json!({"rules": rules, "datas": datas, "order": order})
+        })
+        .boxed()
+}
+
 /// the same calls made as the only call of a fresh process (the CLI) must give the same value and the same log lines
 fn check_fresh_process(case: &Value, obs: &mut Obs) -> Result<(), String> {
     // the fresh process receives texts: evaluate in-process on exactly what those texts deliver
@@ -453,6 +575,30 @@ pub fn property() -> Property {
                 check: check_history,
                 quick: 160,
                 thorough: 8_000,
+                small_stack: false,
+            },
+            Sub {
+                name: "deep_concurrent",
+                about: "a rule nested 30-62 operator levels (!, !!, if, and, cat, map+reduce towers; deliverable as text) evaluated alone and then by 4-16 threads x 5-40 calls at the same moment: every concurrent result must equal the isolated one (and the model).",
+                nontrivial: "every case.",
+                strategy: Some(gen_deep_concurrent),
+                fixed: None,
+                fixed_exhaustive: false,
+                check: check_deep_concurrent,
+                quick: 240,
+                thorough: 12_000,
+                small_stack: false,
+            },
+            Sub {
+                name: "fresh_values",
+                about: "sequences of 4-24 calls in which rule and data are parsed from text immediately before each call and dropped immediately after it, over families of non-ASCII strings of identical byte length (as whole data or as members) and rules that index / slice / search / compare them: every call must equal the reference semantics, whatever was allocated and freed before.",
+                nontrivial: "at least three specified calls in the sequence.",
+                strategy: Some(gen_fresh_values),
+                fixed: None,
+                fixed_exhaustive: false,
+                check: check_fresh_values,
+                quick: 6_000,
+                thorough: 300_000,
                 small_stack: false,
             },
             Sub {
